@@ -184,9 +184,8 @@ structure KeyShape where
 
 /-- as coded up to 0654bec: `operationName + "\x00" + normKey`, fallback `"raw:" + hex(fnv64a(query))` -/
 def keyShapeCoded : KeyShape := ⟨nulJoin, rawFallbackKey⟩
-/-- after D-06k.diff: `Itoa(len(operationName)) + ":" + operationName + normKey` (the raw branch's injective
-construction), fallback `"raw:" + query` -/
-def keyShapeRepaired : KeyShape := ⟨rawKey, rawFallbackKeyText⟩
+/-- after D-06k.diff: the same join, fallback `"raw:" + query` (no hash) -/
+def keyShapeRepaired : KeyShape := ⟨nulJoin, rawFallbackKeyText⟩
 
 /-- cache key of the normalising branch (plan_cache.go:156-167) -/
 def normCacheKey (fb : KeyShape) (op q normKey : Bytes) : Bytes :=
